@@ -1423,7 +1423,7 @@ class Config:  # pylint: disable=too-many-instance-attributes
                 ) from err
 
         for key, sub_schema in sub_schemas:
-            if tree.get(key):
+            if isinstance(tree.get(key), dict):
                 tree[key] = self._process_includes(
                     sub_schema, tree[key], format_factory
                 )
